@@ -6,7 +6,11 @@ from ..adapter import build, project, same_def, shape_key
 from .c01 import tags_of, KIND, _try
 
 
-def check_case(ctx, cs):
+def _three_decimals(sh):
+    return all((fr(k) * 1000).denominator == 1 for U in sh["kv"] for k in U)
+
+
+def check_case(ctx, cs, precision=None):
     from geomdl import operations
     from geomdl.exceptions import GeomdlException
     ctx.full = cs
@@ -14,7 +18,14 @@ def check_case(ctx, cs):
     pd = len(sh["deg"])
     tg = tags_of(sh)
     small = {"deg": sh["deg"], "kv": sh["kv"], "rat": sh["rat"]}
-    ok, obj = _try(ctx, "build", tg, small, lambda: build(sh))
+    if precision is None:
+        ok, obj = _try(ctx, "build", tg, small, lambda: build(sh))
+    else:
+        # the same case on an input created with a coarse ``precision`` option (its own knots are
+        # representable, so the option does not alter the input; the pieces are new objects)
+        tg = tg + ["precision=%d" % precision]
+        small = dict(small, precision=precision)
+        ok, obj = _try(ctx, "build", tg, small, lambda: build(sh, precision=precision))
     if not ok:
         return
     before = copy.deepcopy(project(obj))
@@ -25,7 +36,7 @@ def check_case(ctx, cs):
         fn = operations.split_curve if pd == 1 else (operations.split_surface_u if d == 1 else operations.split_surface_v)
         site = "operations." + fn.__name__
         small = dict(small, d=d, u=o["u"])
-        ctx.count((op, shape_key(sh), d, tuple(o["u"])), sample={"op": op, **small})
+        ctx.count((op, shape_key(sh), d, tuple(o["u"]), precision), sample={"op": op, **small})
         if op == "split_end":
             try:
                 fn(obj, u)
@@ -52,7 +63,7 @@ def check_case(ctx, cs):
         site = "operations.decompose_curve" if pd == 1 else "operations.decompose_surface"
         small = dict(small, dir=dr)
         tg2 = tg + ["dir=" + dr]
-        ctx.count((op, shape_key(sh), dr), sample={"op": op, **small, "pieces": len(o["pieces"])})
+        ctx.count((op, shape_key(sh), dr, precision), sample={"op": op, **small, "pieces": len(o["pieces"])})
         ok, pcs = _try(ctx, site, tg2, small, lambda: operations.decompose_curve(obj) if pd == 1 else operations.decompose_surface(obj, decompose_dir=dr))
         if ok:
             if len(pcs) != len(o["pieces"]):
@@ -83,7 +94,10 @@ def run(ctx):
         k = cs["out"]["op"] + "/" + KIND[len(cs["sh"]["deg"])]
         ops[k] = ops.get(k, 0) + 1
         check_case(ctx, cs)
-    if len(ops) < 6:
+        if cs["out"]["op"] != "split_end" and _three_decimals(cs["sh"]):
+            ops["precision=3"] = ops.get("precision=3", 0) + 1
+            check_case(ctx, cs, precision=3)
+    if len(ops) < 7:
         raise core.MachineryError("vacuous model: %s" % ops)
     ctx.traces = len(res.cases)
     ctx.extra["transitions_by_action"] = ops
@@ -92,4 +106,4 @@ def run(ctx):
 
 
 def replay(ctx, v):
-    check_case(ctx, v["full"])
+    check_case(ctx, v["full"], precision=v.get("case", {}).get("precision"))
